@@ -220,6 +220,25 @@ def job_cfit(ss, extended, nd=2, nm=1, with_hess=False):
                 ss.prove("%s.hessian[N=%d,%d,b=%d,%s,%s]" % (kind, nd, nm, batch, nme, n2), F, far(ht[k, l], T.diff(dk, th[n2].t), 0), key=kind + ".hessian", payload=pay, ackermann=False, timeout=120,
                          describe="cfit Hessian assembled from the Jacobian of (theta, I_sig, I_bg) equals the second derivative of the returned NLL")
     ss.mutant("%s.mutant[N=%d,%d]" % (kind, nd, nm), F, far(gt[0], T.neg(_d(val, th[names[0]])), 0))
+    # Hessian-vector product of the same likelihood (used by the Newton-type minimisers with hessp)
+    if with_hess:
+        pv = [S.real("p_%d" % i) for i in range(len(names))]
+        fcn = FCN(model, data, mc, batch=3)
+        val = _value(fcn)
+        g3, hp = fcn.grad_hessp({}, np.array(pv, dtype=object), batch=3)
+        F = facts()
+        allv = [val] + toy.vector_terms(g3) + toy.vector_terms(hp)
+        ts = [x.t for x in simp(F, *[SymReal(symtf.resolve_bindings(x)) for x in allv])]
+        n = len(names)
+        val, g3t, hpt = ts[0], ts[1 : 1 + n], ts[1 + n : 1 + 2 * n]
+        pay = _pay(kind, (nd, 0, nm), batch=3, hessp=True)
+        for k, nme in enumerate(names):
+            dk = _d(val, th[nme])
+            ss.prove("%s.hessp.gradient[N=%d,%d,%s]" % (kind, nd, nm, nme), F, far(g3t[k], dk, 0), key=kind + ".hessp", payload=pay, ackermann=False, timeout=90,
+                     describe="gradient returned by grad_hessp = derivative of the NLL this likelihood reports")
+            ref = T.add(*[T.mul(T.diff(dk, th[n2].t), pv[l].t) for l, n2 in enumerate(names)])
+            ss.prove("%s.hessp.product[N=%d,%d,%s]" % (kind, nd, nm, nme), F, far(hpt[k], ref, 0), key=kind + ".hessp", payload=pay, ackermann=False, timeout=120,
+                     describe="Hessian-vector product returned by grad_hessp = (second derivative of the reported NLL) . p")
 
 
 def job_combine(ss):
